@@ -73,6 +73,23 @@ fn build_all(obs: &mut Obs) -> R {
     ensure!(err.contains("cannot be enabled when using `no_std`"), "C18:build:serialize-without-std-message", "the build fails without the documented compile_error text: {}", trunc(&err));
     obs.nontrivial(fnv64(b"serialize-without-std"));
     obs.sample(json!({"feature_set": "serialize without std", "result": "refused with the compile_error text"}));
+    // the same refusal for every way the crate itself gets compiled: as a library (above, through a dependent package) and as its own
+    // unit-test harness (cfg(test): `cargo test --lib`), whose guards can differ from the library's
+    let repo = std::env::var("VERIF_REPO").unwrap_or_else(|_| "/repo".into());
+    for (what, args) in [("cargo check --lib", vec!["check", "--lib", "-q", "--offline", "--no-default-features", "--features", "serialize"]), ("cargo check --lib --profile test (the unit-test harness)", vec!["check", "--lib", "--profile", "test", "-q", "--offline", "--no-default-features", "--features", "serialize"])] {
+        obs.eval();
+        let out = output_with_progress(Command::new("cargo").args(&args).current_dir(&repo).env("CARGO_TARGET_DIR", harness_dir().join("target-cfg-bad")).env("CARGO_NET_OFFLINE", "true").env_remove("RUSTFLAGS"), 3600, true).map_err(|e| Fail { sig: "harness:cargo".into(), msg: format!("{}", e) })?;
+        let err = String::from_utf8_lossy(&out.stderr).to_string();
+        ensure!(!out.status.success(), "C18:build:serialize-without-std-accepted", "enabling `serialize` without `std` must be refused at compile time, but `{}` in the crate succeeded", what);
+        if err.contains("cannot be enabled when using `no_std`") {
+            obs.nontrivial(fnv64(what.as_bytes()));
+            obs.sample(json!({"feature_set": "serialize without std", "command": what, "result": "refused with the compile_error text"}));
+        } else {
+            // failed for another reason (a dev-dependency that cannot be resolved offline, ...): nothing is learnt, and nothing is claimed
+            obs.class("crate-level-refusal-probe-unavailable");
+            obs.sample(json!({"command": what, "result": "failed without the compile_error text", "stderr": trunc(&err)}));
+        }
+    }
     Ok(())
 }
 
